@@ -555,7 +555,11 @@ impl Terminal for UnixTerminal {
         while let Some(event) = self.poll(None)? {
             match event {
                 TerminalEvent::DeviceAttrs(..) => {
-                    self.events_queue.extend(queue);
+                    // put skipped events back in front of the ones that are still
+                    // queued, they have been received earlier
+                    for event in queue.into_iter().rev() {
+                        self.events_queue.push_front(event);
+                    }
                     return Ok(pos);
                 }
                 TerminalEvent::CursorPosition(term_pos) => {
